@@ -44,7 +44,9 @@ EncVerdict(ev) ==
   LET c == Canonical(ev.fam, ev.lvl, ev.s)
   IN IF ~ev.own.encok THEN "encode:Encode fails on the object decoded from '" \o ev.s \o "'"
      ELSE IF ev.own.enc # c THEN "encode:'" \o ev.own.enc \o "' is not the canonical '" \o c \o "'"
-     ELSE IF ev.own.str # ev.own.enc THEN "encode:String() '" \o ev.own.str \o "' differs from Encode()"
+     ELSE IF ev.own.str # ev.own.enc THEN "encode:String() '" \o ev.own.str \o "' differs from Encode() '" \o ev.own.enc \o "'"
+     ELSE IF Has(ev, "views") /\ \E L2 \in DOMAIN ev.views : ev.views[L2].str # ev.views[L2].enc
+          THEN "encode:String() of a lower-level view of '" \o ev.s \o "' differs from its Encode()"
      ELSE IF ev.fam = "v2" /\ ev.own.enc # ev.s THEN "encode:v2 encoding differs from the input '" \o ev.s \o "'"
      ELSE IF ~Has(ev, "re") THEN "harness:no re-decode recorded"
      ELSE IF ~ev.re.ok THEN "encode:decoding the encoding '" \o ev.own.enc \o "' fails"
